@@ -113,3 +113,35 @@ pub fn slot_chain_of(
 pub fn slot_chain_with(extra: std::sync::Arc<dyn crate::base::StatSlot>) -> std::sync::Arc<crate::base::SlotChain> {
     slot_chain_of(slots::ALL, Some(extra))
 }
+
+/// Points inside known check-then-act windows of the library. A no-op unless delay injection is turned
+/// on, in which case the calling thread sleeps for a pseudo-random time of up to two milliseconds, which
+/// makes the interleavings that hit the window likely in a native stress replay.
+pub mod sync {
+    use std::sync::atomic::{AtomicU64, Ordering};
+
+    static DELAY_STATE: AtomicU64 = AtomicU64::new(0);
+
+    /// seed != 0 turns delay injection on
+    pub fn set_delay_seed(seed: u64) {
+        DELAY_STATE.store(seed, Ordering::SeqCst);
+    }
+
+    pub fn sync_point(id: u32) {
+        let mut s = DELAY_STATE.load(Ordering::SeqCst);
+        if s == 0 {
+            return;
+        }
+        s ^= s >> 12;
+        s ^= s << 25;
+        s ^= s >> 27;
+        s = s.wrapping_add(id as u64 * 0x9E37_79B9_7F4A_7C15);
+        DELAY_STATE.store(s | 1, Ordering::SeqCst);
+        let r = s.wrapping_mul(0x2545_F491_4F6C_DD1D) >> 33;
+        match r % 4 {
+            0 => {}
+            1 => std::thread::yield_now(),
+            _ => std::thread::sleep(std::time::Duration::from_micros(r % 2000)),
+        }
+    }
+}
